@@ -15,6 +15,7 @@ from linear_operator.operators import (
 from linear_operator.utils.cholesky import psd_safe_cholesky
 from torch import Tensor
 
+from .. import _verif  # isort: skip
 from .. import settings
 from ..distributions import MultivariateNormal
 from ..likelihoods import Likelihood
@@ -46,20 +47,28 @@ class InducingPointKernel(Kernel):
             del self._cached_kernel_mat
         if hasattr(self, "_cached_kernel_inv_root"):
             del self._cached_kernel_inv_root
+        if _verif.ON:
+            _verif.cache_event("c_clear", self, "*")
 
     @property
     def _inducing_mat(self):
         if not self.training and hasattr(self, "_cached_kernel_mat"):
+            if _verif.ON:
+                _verif.cache_event("c_hit", self, "_cached_kernel_mat")
             return self._cached_kernel_mat
         else:
             res = to_dense(self.base_kernel(self.inducing_points, self.inducing_points))
             if not self.training:
                 self._cached_kernel_mat = res
+                if _verif.ON:
+                    _verif.cache_event("c_fill", self, "_cached_kernel_mat")
             return res
 
     @property
     def _inducing_inv_root(self):
         if not self.training and hasattr(self, "_cached_kernel_inv_root"):
+            if _verif.ON:
+                _verif.cache_event("c_hit", self, "_cached_kernel_inv_root")
             return self._cached_kernel_inv_root
         else:
             chol = psd_safe_cholesky(self._inducing_mat, upper=True)
@@ -69,6 +78,8 @@ class InducingPointKernel(Kernel):
             res = inv_root
             if not self.training:
                 self._cached_kernel_inv_root = res
+                if _verif.ON:
+                    _verif.cache_event("c_fill", self, "_cached_kernel_inv_root")
             return res
 
     def _get_covariance(self, x1, x2):
